@@ -450,6 +450,14 @@ fn local_name(rng: &mut Rng, used: &mut Vec<String>) -> String {
                 return n;
             }
         }
+        3 => {
+            // an identifier that starts with a keyword and goes on with `_` or a digit (one word, not two)
+            let n = rng.pick(&["ref_x", "if_", "while_1", "type_a", "var_b", "proc_c", "of_d", "array_e", "else_f", "ref1", "if0", "of_"]).to_string();
+            if !used.contains(&n) {
+                used.push(n.clone());
+                return n;
+            }
+        }
         1 | 2 => {
             let cands: Vec<String> = used
                 .iter()
@@ -632,7 +640,10 @@ pub fn layout(rng: &mut Rng, toks: &[Tok], lo: &Layout) -> (String, Vec<usize>, 
                 s.push_str(if rng.chance(1, 2) { "\n" } else { " " });
             }
             for _ in 0..(1 + rng.below(2)) {
-                let body = match rng.below(5) {
+                let n_bodies = if rng.chance(1, 6) { 6 } else { 5 };
+                let body = match rng.below(n_bodies) {
+                    // a bare CR inside the comment text: a new LINE for positions, but not the end of the comment
+                    5 => format!(" c{}\rx y", n_comment),
                     0 => format!(" c{}", n_comment),
                     4 => format!(" f(a, b), c{} \u{1F600}", n_comment),
                     1 => format!("c{} é€", n_comment),
